@@ -8,6 +8,7 @@ by the correspondence stream).
 import PasskeyVerif.Lemmas.CtapMsg
 import PasskeyVerif.Model.Status
 import PasskeyVerif.Spec.Ctap
+import PasskeyVerif.Model.Client
 namespace PasskeyVerif.C13
 open PasskeyVerif.CtapMsg PasskeyVerif.Generated PasskeyVerif.Cbor
 
@@ -135,6 +136,54 @@ theorem C13_client_status_map : ∀ b : Fin 256,
     Status.toWebauthn (Status.ofByte b.val)
       = if b.val = 0x2E then .credentialNotFound else .authenticatorError b.val := by
   decide +kernel
+
+/-- **The mapping is what `Client::authenticate` applies**: for every verifier, configuration, store, user
+validation, origin, request and client-data mode, an authentication whose RP-ID check and extension
+processing pass and whose `getAssertion` fails with status `e` ends with exactly the mapped error:
+credential-not-found for 0x2E, `AuthenticatorError(e)` unchanged for every other status. -/
+theorem C13_authenticate_applies_map (v : RpId.Verifier) (cfg : Auth.Cfg) (u : Auth.UvCfg)
+    (s : Auth.Store) (origin : RpId.Origin) (originStr : String) (req : Client.AuthReq)
+    (mode : Client.ClientDataMode) (e : Nat) :
+    ∀ rp ctapExt,
+    RpId.assertDomain v origin req.rpId = .ok rp →
+    Client.authPrfInput req.allow req.ext (Auth.getInfo cfg u s).1.1 = .ok ctapExt →
+    (Auth.getAssertion cfg u (Auth.getInfo cfg u s).2
+        { rpId := rp.map UInt8.ofNat,
+          cdh := Client.clientDataHash (Client.clientDataJson "webauthn.get" req.challenge originStr mode) mode,
+          allowList := req.allow, ext := ctapExt, rk := false, up := true,
+          uv := req.userVerification != .discouraged, pinAuth := false }).result = .error e →
+    (Client.authenticate v cfg u s origin originStr req mode).result
+      = .error (if e = 0x2E then .credentialNotFound else .authenticatorError e) := by
+  intro rp ctapExt hrp hext hget
+  unfold Client.authenticate
+  simp only [hrp, hext, hget, Client.statusToWeb, Auth.eNoCredentials]
+  rfl
+
+/-- ... so an authentication that reaches the authenticator never ends with `AuthenticatorError(0x2E)`,
+whatever the authenticator answers -/
+theorem C13_authenticate_never_passes_no_credentials (v : RpId.Verifier) (cfg : Auth.Cfg)
+    (u : Auth.UvCfg) (s : Auth.Store) (origin : RpId.Origin) (originStr : String)
+    (req : Client.AuthReq) (mode : Client.ClientDataMode) :
+    ∀ rp ctapExt,
+    RpId.assertDomain v origin req.rpId = .ok rp →
+    Client.authPrfInput req.allow req.ext (Auth.getInfo cfg u s).1.1 = .ok ctapExt →
+    (Client.authenticate v cfg u s origin originStr req mode).result ≠ .error (.authenticatorError 0x2E) := by
+  intro rp ctapExt hrp hext
+  unfold Client.authenticate
+  simp only [hrp, hext]
+  intro h
+  split at h
+  · rename_i e he
+    simp only [Client.statusToWeb] at h
+    by_cases hc : e = Auth.eNoCredentials
+    · rw [if_pos hc] at h; cases h
+    · rw [if_neg hc] at h
+      injection h with h; injection h with h
+      exact hc h
+  · split at h
+    · injection h with h; injection h with h
+      simp [Auth.eInvalidCredential] at h
+    · cases h
 
 /-! non-vacuity: a concrete getAssertion request value is well formed and round-trips -/
 example : ValsOk Ctap.getAssertionRequest (fun k => if k = 5 then some defaultOptionsItem else none) (fun _ _ => true)
